@@ -79,6 +79,14 @@ def check(ctx):
     q = ctx.quick()
     base = ppx.gen_general(r, 140 if q else 2500, tag="general")
     base += [ppx.PC({"top.sv": t, "i.svh": "inc/**/luded\n"}, predefs=[("WIDE", None)] if r.random() < 0.5 else [], tag="separator") for t in SEP]
+    # every kind of kept directive in front of an `include whose file ends in a one-line comment without line end: the line
+    # after the `include is text with and without the flag
+    for kd in ["`pragma protect\n", "`timescale 1ns/1ps\n", "`default_nettype none\n", "`celldefine\n", "`endcelldefine\n", "`unconnected_drive pull0\n",
+               "`nounconnected_drive\n", "`resetall\n", "`line 2 \"f.v\" 0\n", "`begin_keywords \"1800-2017\"\n", "`define KD 1\n`undef KD\n", "`undefineall\n",
+               "`begin_keywords \"1800-2017\"\n`end_keywords\n", ""]:
+        base.append(ppx.PC({"top.sv": kd + "module m;\n`include <tail.svh>\nendmodule\n`ifdef U_\n`endif\nafter\n", "tail.svh": "  wire w; // last line"},
+                           incdirs=["."], tag="kept-then-include"))
+        base.append(ppx.PC({"top.sv": kd + "x `ifdef KD2 a`else b`endif c\n", "i.svh": "q"}, tag="kept-then-include"))
     # comment-heavy random texts: comments as the only separators between tokens, next to directives and usages
     for _ in range(60 if q else 1500):
         parts = ["`define A 1\n", "`define F(x) x/**/x\n"] if r.random() < 0.6 else []
